@@ -139,7 +139,7 @@ func allPerms(n int) [][]int {
 }
 
 func runC18(res *Result, d *Driver, g *Rng, tier string) {
-	res.Rule = "receipts built from the eight standard keys in every order (all 8! = 40320 for three value sets; quick: all orders of one value set sampled 1/7 plus 2000 random) and every subset (2^8), values = space-free strings without key tokens incl. values longer than the field width, near-miss fragments, non-UTF-8 octets, runes whose case mapping changes their UTF-8 width, key words in another case; SMPP and SMGP with both SMGP spellings; SMGP id = any ten octets (spaces, NULs, 0xff) not spelling a key token; non-trivial = distinct receipt text"
+	res.Rule = "receipts built from the eight standard keys in every order (all 8! = 40320 for three value sets; quick: all orders of one value set sampled 1/7 plus 2000 random) and every subset (2^8), values = space-free strings without key tokens incl. values longer than the field width, near-miss fragments, non-UTF-8 octets, runes whose case mapping changes their UTF-8 width, key words in another case; SMPP and SMGP with both SMGP spellings; SMGP id = any ten octets (spaces, NULs, 0xff) not spelling a key token; the CMPP status-report body: 300 (thorough 6000) structure-directed records round-tripped; non-trivial = distinct receipt text"
 	thorough := tier == "thorough"
 	var ops, goOut []string
 	check := func(kind string, order []int, present uint, vals [][]byte, alt bool, viaModel bool) {
@@ -271,5 +271,26 @@ func runC18(res *Result, d *Driver, g *Rng, tier string) {
 	}
 	res.Sample(string(unhx(strings.Fields(ops[0])[2])) + "  =>  " + goOut[0])
 	res.Sample(ops[len(ops)-1] + "  =>  " + goOut[len(ops)-1])
+	// the CMPP binary status-report body: encoder and decoder are inverse (the records and the predicate of C01, on
+	// this one type; the images are looked at again when the run is over)
+	if err := loadLayouts(layoutsPath); err == nil {
+		if s := shapes["cmpp.SubPduDeliveryContent"]; s != nil {
+			n := 300
+			if thorough {
+				n = 6000
+			}
+			for i := 0; i < n; i++ {
+				before := len(ops)
+				c01RoundTrip(res, "cmpp.SubPduDeliveryContent", s, genFit(g, s, thorough), &ops, &goOut)
+				res.Eval(ops[before], strings.HasPrefix(goOut[before], "ok"))
+			}
+			// C01's classes are reported here under C18
+			for i := range res.Violations {
+				if strings.HasPrefix(res.Violations[i].Class, "C01.") {
+					res.Violations[i].Class = "C18.report-body-" + strings.TrimPrefix(res.Violations[i].Class, "C01.")
+				}
+			}
+		}
+	}
 	res.Compare(d, "receipt extraction model vs ExtractDeliveryReceipt", ops, goOut)
 }
